@@ -1,6 +1,6 @@
 (* Main.v — request dispatcher of the extracted model binary: one s-expression request per line,
    one s-expression answer per line. Definitions only. *)
-From FV Require Import Base AddrRange RouteMap Graph Netlist Hw Check Jobs Desc Build Paths Compile Routing Emit Side RefOracle.
+From FV Require Import Base AddrRange RouteMap Graph Netlist Hw Check Jobs Desc Build Paths Compile Routing Emit Side XYSide RefOracle.
 
 Definition sx_expected (x : sx) : res (string * (Z * Z)) :=
   match x with
@@ -119,6 +119,24 @@ Definition dispatch (cmd : string) (args : list sx) : res sx :=
              | Err e => Ok (L [A "err"; A (sanitize e)])
              end
     | _ => Err "tree: arity"
+    end
+  else if str_eqb cmd "xy" then
+    (* (xy <description tree> (m n ((name i j port) ...))) -> (ok #t/#f ...) | (err): the hypotheses of
+       C04_hw_bisimulation_decidable for the description and the grid it denotes *)
+    match args with
+    | [x; L [m; nn; atts]] =>
+        match (do m <- sx_Z m; do nn <- sx_Z nn;
+               do atts <- sx_listof (fun x => match x with
+                                              | L [A nm; i; j; q] => do i <- sx_Z i; do j <- sx_Z j; do q <- sx_Z q;
+                                                                     Ok (nm, ((i, j), q))
+                                              | _ => Err "attachment expected"
+                                              end) atts;
+               do d <- parse_desc (yv_of_sx x);
+               xy_conditions d {| gr_m := m; gr_n := nn; gr_att := atts |}) with
+        | Ok bs => Ok (L (A "ok" :: map (fun b : bool => A (if b then "#t" else "#f")) bs))
+        | Err e => Ok (L [A "err"; A (sanitize e)])
+        end
+    | _ => Err "xy: arity"
     end
   else if str_eqb cmd "nl-echo" then
     match args with [x] => do n <- sx_netlist x; Ok (x_netlist n) | _ => Err "nl-echo: arity" end
